@@ -26,17 +26,9 @@ theorem chunksOne_concat : ∀ (t : XTree), lateOne t = false →
     have ih := chunksKids_concat kids h.2
     simp only [chunksOne, textsOne, XTree.tail, concat_append, Bool.false_eq_true, if_false]
     rw [← ih]
-    have h1 := h.1
-    cases tail with
-    | none => simp [concat_optList_none, String.append_empty]
-    | some s =>
-      simp only [concat_optList_some]
-      by_cases hs : s = ""
-      · subst hs; simp [String.append_empty]
-      · have hk : concat (chunksKids kids) = "" := by
-          simp [hs] at h1
-          exact h1
-        rw [hk]; simp [String.append_empty]
+    have h1 : concat (optList tail) ++ concat (chunksKids kids) = concat (chunksKids kids) ++ concat (optList tail) := by
+      simpa using h.1
+    rw [String.append_assoc, String.append_assoc, h1]
   | .comment s tail, _ => by simp [chunksOne, textsOne, XTree.tail]
   | .pi t s tail, _ => by simp [chunksOne, textsOne, XTree.tail]
 theorem chunksKids_concat : ∀ (ts : List XTree), lateKids ts = false →
